@@ -264,3 +264,6 @@ PROPS['C12']['ext'] = dict(files=['X12'], targets=['Proofs/KnownGames.vo'], stre
 PROPS['C17']['ext'] = dict(files=['X17'], targets=['Proofs/PerftMirror.vo'], stream=None, tags=[])
 PROPS['C06']['ext'] = dict(files=['X06'], targets=['Proofs/FenAccepted.vo'], stream=None, tags=[])
 PROPS['C14']['ext'] = dict(files=['X14'], targets=['Proofs/IterOnBoards.vo', 'Proofs/IterOnBoardsExamples.vo'], stream=None, tags=[])
+PROPS['C14']['miri'] = True
+PROPS['C19']['miri'] = True
+PROPS['C02']['miri'] = True
